@@ -201,7 +201,7 @@ fn check_rendering(text: &str, e: &RouteErr, out: &mut RunOut, route: &str) {
         .map(|l0| l0.split(|ch: char| !ch.is_ascii_digit()).filter(|x| !x.is_empty()).filter_map(|x| x.parse().ok()).collect())
         .unwrap_or_default();
     let quoted = content.trim_end_matches('\r');
-    let mut ok = nums == vec![l, c] && (quoted.is_empty() || lines.iter().skip(1).any(|x| x.trim_end_matches('\r').ends_with(quoted))) && e.rendered.contains(&e.message);
+    let mut ok = nums.windows(2).any(|w| w == [l, c]) && (quoted.is_empty() || lines.iter().skip(1).any(|x| x.trim_end_matches('\r').ends_with(quoted))) && e.rendered.contains(&e.message);
     // if the rendering draws carets under the quoted line, the first caret marks the reported column
     if ok && !quoted.is_empty() {
         if let Some(qi) = lines.iter().skip(1).position(|x| x.trim_end_matches('\r').ends_with(quoted)).map(|i| i + 1) {
